@@ -51,7 +51,10 @@ ASSUMPTIONS = [
     "observable can depend on (instance dict incl. memoised properties).",
     "Repeat-query equality: exact categories rtol 1e-9; solver-based balls 1e-6 and skipped "
     "when any participating raw solver output fails its certificate (C13 attribution).",
-    "plot / to_plato_scene are exercised in the thorough tier only (Agg backend).",
+    "plot runs in both tiers (Agg backend), to_plato_scene in the thorough tier only; keyword "
+    "parameters with a boolean default (found by reflection: plot(center=, plot_verts=, "
+    "label_verts=) and any option added later to a query or exporter) are flipped to True in "
+    "half of the calls that have them.",
 ]
 IO_FORMATS = ["OBJ", "OFF", "STL", "PLY", "VTK", "X3D", "HTML"]
 FS_FAULTS = [("open", "eacces"), ("write", "enospc"), ("write", "short"), ("close", "eio"),
@@ -87,7 +90,9 @@ def alphabet(cls_name, tier="quick"):
             A += [("call", m, "valid"), ("call", m, "unknown_attr")]
         elif m == "save":
             A += [("call", m, f) for f in IO_FORMATS] + [("call", m, "UNKNOWN")]
-        elif m in ("plot", "to_plato_scene"):
+        elif m == "plot":
+            A.append(("call", m, ""))  # Agg backend; ~10 ms
+        elif m == "to_plato_scene":
             if tier == "thorough":
                 A.append(("call", m, ""))
         else:
@@ -95,6 +100,40 @@ def alphabet(cls_name, tier="quick"):
     if "save" in methods:
         A += [("io", "to_" + f.lower(), "") for f in IO_FORMATS]
     return A
+
+
+def bool_flags(fn):
+    """Names of the keyword parameters of a callable whose default is a bool: the
+    non-default spellings of a query are queries too (found by reflection, so an option
+    added later is exercised as well)."""
+    import inspect
+
+    try:
+        sig = inspect.signature(fn)
+    except (TypeError, ValueError):
+        return []
+    return sorted(p.name for p in sig.parameters.values()
+                  if isinstance(p.default, bool) and p.kind in (p.POSITIONAL_OR_KEYWORD,
+                                                                p.KEYWORD_ONLY))
+
+
+_FLAGS = {}
+
+
+def _flags_of(cls_name, kind, name):
+    k = (cls_name, kind, name)
+    if k not in _FLAGS:
+        import coxeter.shapes as S
+        from coxeter import io as cio
+
+        if kind == "io":
+            fn = getattr(cio, name, None)
+        elif kind == "call" and name not in ("repr", "str"):
+            fn = getattr(getattr(S, cls_name), name, None)
+        else:
+            fn = None
+        _FLAGS[k] = bool_flags(fn) if callable(fn) else []
+    return _FLAGS[k]
 
 
 _ALPHA = {}
@@ -152,10 +191,13 @@ def _array_getters(cls, base=None):
     return out
 
 
-def _mk_step(rng, q, fault_rate):
+def _mk_step(rng, q, fault_rate, cls=None):
     kind, name, variant = q
     st = {"op": kind, "name": name, "variant": variant, "arg_seed": rng.u32(),
           "pyseed": rng.u32(), "npseed": rng.u32(), "repeat": rng.chance(0.5)}
+    fl = _flags_of(cls, kind, name) if cls else []
+    if fl and rng.chance(0.5):
+        st["flags"] = {f: True for f in fl if rng.chance(0.6)} or {fl[0]: True}
     if (kind == "io" or name == "save") and rng.chance(fault_rate):
         on, fk = rng.choice(FS_FAULTS)
         st["fs_faults"] = [{"on": on, "nth": rng.choice([0, 0, 1, 2]), "kind": fk, "frac": 0.5}]
@@ -204,7 +246,7 @@ def gen_spec(seed, index, tier):
     n = ops.randint(2, 8 if tier == "quick" else 16)
     # calls (which may move the shape and move it back) weigh twice a plain getter
     W = [(q, 2.0 if q[0] != "get" else 1.0) for q in A]
-    steps = [_mk_step(ops, ops.weighted(W), 0.25) for _ in range(n)]
+    steps = [_mk_step(ops, ops.weighted(W), 0.25, cls) for _ in range(n)]
     if ops.chance(0.5):
         # hand-out prefix: first take references to internal arrays, then query
         arr = _array_getters(cls, base)
@@ -217,7 +259,7 @@ def gen_spec(seed, index, tier):
     if forced:
         for pos, k in enumerate(forced[1]):
             if pos < len(steps):
-                steps[pos] = _mk_step(ops, A[k], 0.1)
+                steps[pos] = _mk_step(ops, A[k], 0.1, cls)
     if base is not None and ops.chance(0.15):
         # queries on a shape with history: one to three mutators before / between queries;
         # after each one the reference snapshot and the hand-out registry start afresh
@@ -241,7 +283,7 @@ def gen_spec(seed, index, tier):
 def sample(spec):
     b = spec.get("base") or {}
     return {"base": {k: b.get(k) for k in ("cls", "family") if k in b},
-            "steps": [({k: s[k] for k in ("op", "name", "variant", "repeat", "fs_faults",
+            "steps": [({k: s[k] for k in ("op", "name", "variant", "flags", "repeat", "fs_faults",
                                           "solver_script") if s.get(k) not in (None, "", [])}
                        if s["op"] != "mutate" else
                        {"op": "mutate", "m": {k: s["m"][k] for k in ("op", "prop", "name", "arg")
@@ -261,6 +303,7 @@ def build_call(obj, st):
     """Returns (callable taking no args, list of argument arrays to watch)."""
     name, variant = st["name"], st["variant"]
     rng = Stream(st["arg_seed"], "args")
+    kw = dict(st.get("flags") or {})
     if st["op"] == "get":
         return (lambda: getattr(obj, name)), []
     if st["op"] == "io":
@@ -268,7 +311,7 @@ def build_call(obj, st):
 
         fn = "q_%s.%s" % (name, name[3:])
         path = pathlib.Path(fn) if rng.chance(0.3) else fn
-        return (lambda: getattr(cio, name)(obj, path)), []
+        return (lambda: getattr(cio, name)(obj, path, **kw)), []
     if name == "repr":
         return (lambda: repr(obj)), []
     if name == "str":
@@ -282,24 +325,24 @@ def build_call(obj, st):
             p = _points(obj, rng, rng.randint(2, 9))[:, :2].copy()
         elif variant == "list":
             p = _points(obj, rng, 3).tolist()
-            return (lambda: obj.is_inside(p)), [("points(list)", p)]
+            return (lambda: obj.is_inside(p, **kw)), [("points(list)", p)]
         else:
             p = np.hstack([_points(obj, rng, 3), np.ones((3, 1))])
-        return (lambda: obj.is_inside(p)), [("points", p)]
+        return (lambda: obj.is_inside(p, **kw)), [("points", p)]
     if name == "compute_form_factor_amplitude":
         ext = history.extent(obj)
         q = np.array([[rng.uniform(-2, 2) for _ in range(3)] for _ in range(5)]) / ext
         q[0] = 0.0
         if variant == "q_density":
-            return (lambda: obj.compute_form_factor_amplitude(q, density=2.5)), [("q", q)]
-        return (lambda: obj.compute_form_factor_amplitude(q)), [("q", q)]
+            return (lambda: obj.compute_form_factor_amplitude(q, density=2.5, **kw)), [("q", q)]
+        return (lambda: obj.compute_form_factor_amplitude(q, **kw)), [("q", q)]
     if name == "distance_to_surface":
         if variant == "angles_wide":
             # legal but unusual: negative angles, angles beyond one turn, the end point 2*pi
             a = np.array([rng.uniform(-4 * np.pi, 6 * np.pi) for _ in range(5)] + [2 * np.pi, 0.0])
         else:
             a = np.array([rng.uniform(0, 2 * np.pi) for _ in range(6)])
-        return (lambda: obj.distance_to_surface(a)), [("angles", a)]
+        return (lambda: obj.distance_to_surface(a, **kw)), [("angles", a)]
     if name == "get_face_area":
         nf = len(obj.faces)
         if variant == "none":
@@ -330,22 +373,22 @@ def build_call(obj, st):
         attrs = rng.sample(good, min(3, len(good)))
         if variant == "unknown_attr":
             attrs.append("no_such_attribute")
-        return (lambda: obj.to_json(attrs)), [("attributes(list)", attrs)]
+        return (lambda: obj.to_json(attrs, **kw)), [("attributes(list)", attrs)]
     if name == "save":
         fn = "q_save.%s" % variant.lower()
         path = pathlib.Path(fn) if rng.chance(0.3) else fn
-        return (lambda: obj.save(variant, path)), []
+        return (lambda: obj.save(variant, path, **kw)), []
     if name == "plot":
         def do_plot():
             import matplotlib.pyplot as plt
 
             try:
-                obj.plot()
+                obj.plot(**kw)
             finally:
                 plt.close("all")
             return None
         return do_plot, []
-    return (lambda: getattr(obj, name)()), []
+    return (lambda: getattr(obj, name)(**kw)), []
 
 
 def arrays_in(value, out, path="", depth=0):
